@@ -2,6 +2,7 @@
 from __future__ import annotations
 
 import ast
+import copy
 
 from ..astutil import is_const, dotted, is_none, norm, strip_docstring, walk_body, walk_local
 from ..dtree import bool_function, decision_tree, leave
@@ -248,29 +249,53 @@ def findall_model(ck: Checker, f: Func, dv: str) -> dict:
         kind = None
         cand_args: list[str] | None = None
         tname = lp.target.id if isinstance(lp.target, ast.Name) else None
-        if full_traversal(it) == f"{wv}.node":
-            kind = "subtree"
-        elif norm(it) == kids_call and isinstance(lp.target, ast.Tuple) and len(lp.target.elts) == 3:
-            kind = "children"
-            c_, f_, i_ = (norm(x) for x in lp.target.elts)
-            cand_args = [c_, f"{wv}.node", f_, i_]
-        elif isinstance(it, (ast.GeneratorExp, ast.ListComp)) and len(it.generators) == 1 and not it.generators[0].ifs and norm(it.generators[0].iter) == kids_call \
-                and isinstance(it.generators[0].target, ast.Tuple) and len(it.generators[0].target.elts) == 3:
-            c_, f_, i_ = (norm(x) for x in it.generators[0].target.elts)
-            inner_elt = it.elt
-            while isinstance(inner_elt, ast.Call) and dotted(inner_elt.func) in sanitisers and len(inner_elt.args) == 1:
-                inner_elt = inner_elt.args[0]
-            if record_args(ck, inner_elt) == [c_, f"{wv}.node", f_, i_]:
-                kind = "children-records" if inner_elt is it.elt else "children-sanitised"
+        # the candidate stream: a base enumeration, optionally mapped element-wise (comprehension layers, innermost first)
+        base: ast.expr = it
+        layers: list[tuple[ast.expr, ast.expr]] = []  # (target, element expression), outermost first
+        while isinstance(base, (ast.GeneratorExp, ast.ListComp)) and len(base.generators) == 1 and not base.generators[0].ifs:
+            layers.append((base.generators[0].target, base.elt))
+            base = base.generators[0].iter
+        elt: ast.expr | None = None  # the element of the outermost layer, expressed over the base enumeration's target
+        base_tgt: ast.expr | None = None
+        if layers:
+            from ..normalize import _Subst
+            base_tgt, elt = layers[-1]
+            ok_layers = True
+            for tg_, el_ in reversed(layers[:-1]):
+                if not isinstance(tg_, ast.Name):
+                    ok_layers = False
+                    break
+                elt = _Subst({tg_.id: elt}).visit(copy.deepcopy(el_))
+            if not ok_layers:
+                elt = None
+        sanitised = False
+        inner_elt = elt
+        while isinstance(inner_elt, ast.Call) and dotted(inner_elt.func) in sanitisers and len(inner_elt.args) == 1:
+            inner_elt = inner_elt.args[0]
+            sanitised = True
+        if not layers:
+            if full_traversal(it) == f"{wv}.node":
+                kind = "subtree"
+            elif norm(it) == kids_call and isinstance(lp.target, ast.Tuple) and len(lp.target.elts) == 3:
+                kind = "children"
+                c_, f_, i_ = (norm(x) for x in lp.target.elts)
+                cand_args = [c_, f"{wv}.node", f_, i_]
+        elif elt is not None and inner_elt is not None:
+            if full_traversal(base) == f"{wv}.node" and isinstance(base_tgt, ast.Name) and norm(inner_elt) == base_tgt.id:
+                kind = "subtree-sanitised" if sanitised else "subtree"
+            elif norm(base) == kids_call and isinstance(base_tgt, ast.Tuple) and len(base_tgt.elts) == 3:
+                c_, f_, i_ = (norm(x) for x in base_tgt.elts)
+                if record_args(ck, inner_elt) == [c_, f"{wv}.node", f_, i_]:
+                    kind = "children-sanitised" if sanitised else "children-records"
         if kind is None:
             if lf.assign[key_any]:
                 anywhere_bad.append(f"'//' step iterates {norm(it)[:50]} instead of a full traversal of the work node")
             else:
                 anywhere_bad.append(f"'/' step iterates {norm(it)[:50]} instead of the direct children")
             continue
-        if lf.assign[key_any] and kind != "subtree":
+        if lf.assign[key_any] and kind not in ("subtree", "subtree-sanitised"):
             anywhere_bad.append(f"'//' step iterates {norm(it)[:50]} instead of a full traversal of the work node")
-        elif not lf.assign[key_any] and kind == "subtree":
+        elif not lf.assign[key_any] and kind in ("subtree", "subtree-sanitised"):
             anywhere_bad.append(f"'/' step iterates {norm(it)[:50]} instead of the direct children")
         elif lf.assign[key_any]:
             ck.holds("R-FULLTRAV", f, lp, "the '//' branch of findall iterates a full traversal of the work node")
@@ -287,7 +312,7 @@ def findall_model(ck: Checker, f: Func, dv: str) -> dict:
                 if isinstance(R, ast.Call) and dotted(R.func) in sanitisers and len(R.args) == 1:
                     Rin = R.args[0]
                     ok = (tname is not None and norm(Rin) == tname) or (cand_args is not None and record_args(ck, Rin) == cand_args)
-                elif kind == "children-sanitised" and tname is not None and norm(R) == tname:
+                elif kind in ("children-sanitised", "subtree-sanitised") and tname is not None and norm(R) == tname:
                     ok = True
                 elif tname is not None:
                     kk = k_is(f"{tname}.parent", dv)
@@ -616,12 +641,34 @@ def _xpath_object_ok(lf, xp: str, recv: str) -> str | None:
 
 
 def _stopiteration_guard(fn: ast.FunctionDef) -> bool:
-    """The next(...) return sits in a try whose StopIteration handler returns None."""
+    """The next(...) call sits in a try whose StopIteration handler makes the function return None: the handler returns None itself, or it
+    binds None to the local the try body binds the result to and that local is what is returned right after the try statement."""
+    def after(block: list[ast.stmt], t: ast.Try) -> list[ast.stmt] | None:
+        for i, st in enumerate(block):
+            if st is t:
+                return block[i + 1:]
+            for sub in ([st.body, st.orelse] if isinstance(st, ast.If) else []):
+                r = after(sub, t)
+                if r is not None:
+                    return r + block[i + 1:]
+        return None
+
     for st in ast.walk(fn):
-        if isinstance(st, ast.Try) and any(isinstance(r, ast.Return) and isinstance(r.value, ast.Call) and dotted(r.value.func) == "next" for r in walk_body(st.body)):
-            for h in st.handlers:
-                if h.type is not None and dotted(h.type) in ("StopIteration", "Exception") and len(h.body) == 1 and isinstance(h.body[0], ast.Return) \
-                        and (h.body[0].value is None or is_none(h.body[0].value)):
+        if not isinstance(st, ast.Try):
+            continue
+        nexts = [c for c in walk_body(st.body) if isinstance(c, ast.Call) and dotted(c.func) == "next"]
+        if not nexts or st.finalbody:
+            continue
+        bound = [x.targets[0].id for x in st.body if isinstance(x, ast.Assign) and isinstance(x.targets[0], ast.Name) and isinstance(x.value, ast.Call) and dotted(x.value.func) == "next"]
+        for h in st.handlers:
+            if not (h.type is not None and dotted(h.type) in ("StopIteration", "Exception")):
+                continue
+            if len(h.body) == 1 and isinstance(h.body[0], ast.Return) and (h.body[0].value is None or is_none(h.body[0].value)):
+                return True
+            if len(h.body) == 1 and isinstance(h.body[0], ast.Assign) and isinstance(h.body[0].targets[0], ast.Name) and is_none(h.body[0].value) \
+                    and h.body[0].targets[0].id in bound:
+                rest = after(fn.body, st)
+                if rest and isinstance(rest[0], ast.Return) and rest[0].value is not None and norm(rest[0].value) == h.body[0].targets[0].id and not st.orelse:
                     return True
     return False
 
